@@ -213,13 +213,16 @@ impl Iommu {
         proximity_domain: Option<u32>,
         int_wires: Option<Vec<InterruptWire>>,
     ) -> Self {
-        Self {
+        let iommu = Self {
             id,
             base_addr,
             pci_device,
             proximity_domain,
             int_wires,
-        }
+        };
+        // The device length is a 16-bit field.
+        assert!(iommu.len() <= u16::MAX as usize);
+        iommu
     }
 
     fn u8sum(&self) -> u8 {
